@@ -95,8 +95,14 @@ pub fn vec_u8_to_bytes_le(input: &[u8]) -> Result<Vec<u8>> {
 pub fn bytes_le_to_vec_u8(input: &[u8]) -> Result<(Vec<u8>, usize)> {
     let mut read: usize = 0;
 
+    if input.len() < 8 {
+        return Err(Report::msg("input is shorter than the vector length field"));
+    }
     let len = usize::try_from(u64::from_le_bytes(input[0..8].try_into()?))?;
     read += 8;
+    if len > input.len() - 8 {
+        return Err(Report::msg("declared vector length exceeds the input"));
+    }
 
     let res = input[8..8 + len].to_vec();
     read += res.len();
@@ -109,10 +115,16 @@ pub fn bytes_le_to_vec_fr(input: &[u8]) -> Result<(Vec<Fr>, usize)> {
     let mut read: usize = 0;
     let mut res: Vec<Fr> = Vec::new();
 
+    if input.len() < 8 {
+        return Err(Report::msg("input is shorter than the vector length field"));
+    }
     let len = usize::try_from(u64::from_le_bytes(input[0..8].try_into()?))?;
     read += 8;
 
     let el_size = fr_byte_size();
+    if len > (input.len() - 8) / el_size {
+        return Err(Report::msg("declared vector length exceeds the input"));
+    }
     for i in 0..len {
         let (curr_el, _) = bytes_le_to_fr(&input[8 + el_size * i..8 + el_size * (i + 1)]);
         res.push(curr_el);
@@ -124,6 +136,11 @@ pub fn bytes_le_to_vec_fr(input: &[u8]) -> Result<(Vec<Fr>, usize)> {
 
 #[inline(always)]
 pub fn bytes_le_to_vec_usize(input: &[u8]) -> Result<Vec<usize>> {
+    if input.len() < 8 || (input.len() - 8) % 8 != 0 {
+        return Err(Report::msg(
+            "input is not a length field followed by 8-byte elements",
+        ));
+    }
     let nof_elem = usize::try_from(u64::from_le_bytes(input[0..8].try_into()?))?;
     if nof_elem == 0 {
         Ok(vec![])
